@@ -80,6 +80,31 @@ def generate(rng, tier):
                 nt = len(evs) > 1 or b"$NetBSD" in data
                 cases.append(Case("dg.file", [str(a)] + evs, meta={"nt": nt, "kind": kind, "n": len(data)}))
                 cases.append(Case("dg.patch", [str(a)] + evs, meta={"nt": nt, "kind": kind, "n": len(data)}))
+    # buffer and length boundaries of the patch filter: the marker straddling the 8192-byte refills of a BufReader
+    # (first and second), lines of 65535 / 65536 / 65537 / 140000 bytes with the marker at the start, beyond 64 KiB,
+    # straddling 64 KiB, or absent; long bursts of Interrupted (a bounded retry loop would give up)
+    big = []
+    for k in (1, 2):
+        for j in range(0, 9):
+            off = 8192 * k - j          # offset of the '$' of the marker
+            big.append(b"a" * (off - 3) + b"\n+ " + b"$NetBSD: x $ tail\nkeep this line\n")
+    for L in (65535, 65536, 65537, 140000):
+        big.append(b"b" * L + b"\nnext\n")
+        big.append(b"$NetBSD$" + b"b" * L + b"\nnext\n")
+        big.append(b"b" * L + b" $NetBSD$\nnext\n")
+        big.append(b"b" * (65536 - 3) + b"$NetBSD$" + b"c" * (L - 65536 + 10 if L > 65536 else 10) + b"\nnext")
+    for i, data in enumerate(big):
+        a = i % 6
+        evs = ["D " + enc(data)]
+        cases.append(Case("dg.patch", [str(a)] + evs, meta={"nt": True, "kind": "boundary", "n": len(data)}))
+        cases.append(Case("dg.file", [str(a)] + evs, meta={"nt": True, "kind": "boundary", "n": len(data)}))
+        if i % 5 == 0:
+            step = rng.choice([4096, 8192, 10000])
+            evs2 = ["D " + enc(data[q:q + step]) for q in range(0, len(data), step)]
+            cases.append(Case("dg.patch", [str(a)] + evs2, meta={"nt": True, "kind": "boundary", "n": len(data)}))
+    for burst in (127, 128, 129, 130, 500):
+        cases.append(Case("dg.file", ["2"] + ["I"] * burst + ["D " + enc(b"hello world")] + ["I"] * burst, meta={"nt": True, "kind": "intr-burst", "n": 11}))
+        cases.append(Case("dg.patch", ["3"] + ["D " + enc(b"l1\n$Net")] + ["I"] * burst + ["D " + enc(b"BSD$\nl3")], meta={"nt": True, "kind": "intr-burst", "n": 16}))
     # string entry point: same digest as the reader entry point on the UTF-8 bytes
     for t in ["", "hello there", "é漢\U0001F600", "a" * 64, "a" * 55, "line\n$NetBSD$\n"]:
         for a in range(6):
